@@ -739,8 +739,10 @@ class PopGen:
                 for c in self.s.closure(n):
                     if c not in names:
                         names.append(c)
+            # an attribute that one of the parts' entities redeclares as DERIVEd is written `*` in the part that declares it
+            derived = set((d["redecl"], d["name"]) for n in names for d in self.s.ents[n].get("derived", []) if d.get("redecl"))
             for n in sorted(names, key=lambda x: x.upper()):
-                vals = [self.slot_value(a, False) for a in self.s.own_slots(n)]
+                vals = [self.slot_value(a, (n, a["name"]) in derived) for a in self.s.own_slots(n)]
                 parts.append({"ent": n.upper(), "vals": vals})
         rec["parts"] = parts
 
@@ -906,7 +908,12 @@ SEP_COMMENT = {"plain": ["/* note */", "/*c*/", "/* */", "/**/"], "quote": ["/*'
                "star": ["/*a*b*/", "/* * */", "/** /*/"], "nl": ["/*\n*/"], "semi": ["/*;*/"]}
 
 
+LONG_COMMENTS = ["/*" + "c" * n + "*/" for n in (8190, 8193, 20000)] + ["/* " + "long comment; with 'quotes' and #1=X(); inside * " * 200 + "*/"]
+
+
 def sep_kind(text):
+    if text in LONG_COMMENTS:
+        return "cmt-long"
     if "/*" in text:
         for k, v in SEP_COMMENT.items():
             if text in v:
@@ -928,11 +935,13 @@ def gen_seps(r, lines, p_ws, p_cmt_between=0.0, p_cmt_in=0.0, sections="hif"):
             if key == "f0" and k == -1:
                 continue      # nothing may precede the file's first terminal
             inside = (k >= 0 and k < len(toks) - 1 and key[0] != "f")
-            if inside and key[0] == "i" and k in (0, 1):
-                inside = False      # after the instance name and after '=': the record's head, where every reader skips comments
+            if inside and key[0] == "i" and (k in (0, 1) or k == len(toks) - 2):
+                inside = False      # after the instance name, after '=' and before the ';': where every reader skips comments
             pc = p_cmt_in if inside else p_cmt_between
             if pc and r.random() < pc:
                 seps["%s:%d" % (key, k)] = r.choice(SEP_COMMENT[r.choice(sorted(SEP_COMMENT))])
+                if r.random() < 0.03:
+                    seps["%s:%d" % (key, k)] = r.choice(LONG_COMMENTS)     # a comment has no maximum length
             elif r.random() < p_ws:
                 seps["%s:%d" % (key, k)] = r.choice(SEP_SPACE) if r.random() < 0.6 else r.choice(SEP_NL)
     return seps
@@ -955,7 +964,8 @@ def sep_features(lines, seps):
         kind = sep_kind(seps[sk])
         inside = prev != "bol" and nxt != "eol" and key[0] != "f"
         head = inside and key[0] == "i" and k in (0, 1)       # after the instance name / after '='
-        coarse = ("cmt" if kind.startswith("cmt") else "ws") + ("-at-record-head" if head else ("-in-record" if inside else "-between-records"))
+        tail = inside and key[0] == "i" and k == len(toks) - 2 and not head      # between the closing parenthesis and the ';'
+        coarse = ("cmt" if kind.startswith("cmt") else "ws") + ("-at-record-head" if head else ("-at-record-tail" if tail else ("-in-record" if inside else "-between-records")))
         for f in (coarse, coarse + ":" + sect, "sep:%s:%s~%s:%s" % (sect, prev, nxt, kind)):
             if f not in out:
                 out.append(f)
@@ -970,7 +980,12 @@ def default_header(r, schema_name, rich=True):
         {"ent": "FILE_NAME", "vals": [["str", "f.p21"], ["str", "2001-02-03T04:05:06"], strs(r.randint(1, 3) if rich else 1),
                                       strs(r.randint(1, 2) if rich else 1), ["str", "pp"], ["str", "os"], ["str", "au"]]},
         {"ent": "FILE_SCHEMA", "vals": [["list", [["str", schema_name.upper()]]]]},
-    ]
+    ] + ([e for e in (
+        # the optional header entities of ISO 10303-21 edition 2 (each at most once, in this order)
+        {"ent": "FILE_POPULATION", "vals": [["str", schema_name.upper()], ["str", "SECTION_BOUNDARY"], ["null"]]},
+        {"ent": "SECTION_LANGUAGE", "vals": [["null"], ["str", r.choice(["en", "de", "fr-CH"])]]},
+        {"ent": "SECTION_CONTEXT", "vals": [["null"], strs(r.randint(1, 2))]},
+    ) if r.random() < 0.3] if rich else [])
 
 
 # ==================================================== independent P21 parser
